@@ -130,12 +130,18 @@ class ReverseProxy(TcpUpstreamConnectionHandler, HttpWebServerBasePlugin):
             reuse = self.upstream is not None and \
                 not self.upstream.closed and \
                 self.upstream.addr == (text_(self.choice.hostname), port)
+            previous = self.upstream
             if not reuse:
                 self.initialize_upstream(text_(self.choice.hostname), port)
             assert self.upstream
             try:
                 if not reuse:
                     self.upstream.connect()
+                    # The connection to the upstream of an earlier request
+                    # is closed only now, so that the new socket never gets
+                    # the descriptor number still known to the event loop
+                    if previous is not None and not previous.closed:
+                        previous.close()
                     if self.choice.scheme == HTTPS_PROTO:
                         self.upstream.wrap(
                             text_(self.choice.hostname),
